@@ -37,6 +37,8 @@ using QStr = String<char>;
 struct Case {
     std::vector<uint8_t> bytes;
     int                  vtype{0}; // 0 SizeT, 1 String<char>, 2 Value<char>, 3 HList
+    bool                 has_marker_key{false}; // a key found by the marker hunt (replay of such a finding)
+    std::string          marker_key;
 };
 
 // ---------------------------------------------------------------------------------------------------------------
@@ -1085,10 +1087,126 @@ struct H {
                             return c;
                         });
     }
+    static void check_marker_key(const std::string &k, pbt::Ctx &ctx) {
+        HArray<QStr, SizeT> t;
+        t.Insert(QStr("a", 1), SizeT(1));
+        t.Insert(QStr(k.data(), SizeT(k.size())), SizeT(2));
+        t.Insert(QStr("b", 1), SizeT(3));
+        auto bad = [&](const std::string &w) {
+            ctx.fail("live-key-hashes-to-removed-marker", "key '" + pbt::enc_bytes(k) + "' hashes to 0, the removed-slot marker: " + w);
+        };
+        SizeT idx = 0;
+        if (!t.Has(k.data(), SizeT(k.size())) || !t.GetKeyIndex(idx, k.data(), SizeT(k.size())) || idx != 1) {
+            bad("not found after Insert");
+        }
+        if (t.GetKey(1) == nullptr || t.GetValue(SizeT(1)) == nullptr || *t.GetValue(SizeT(1)) != 2) {
+            bad("found by key but index 1 reads as removed");
+        }
+        if (t.ActualSize() != 3) {
+            bad("ActualSize() does not count it");
+        }
+        for (unsigned g = 0; g < 40; ++g) { // growth / rehash
+            std::string o = "g" + std::to_string(g);
+            t.Insert(QStr(o.data(), SizeT(o.size())), SizeT(g));
+        }
+        HArray<QStr, SizeT> copy{t};
+        t.Compress();
+        if (!t.Has(k.data(), SizeT(k.size())) || !copy.Has(k.data(), SizeT(k.size()))) {
+            bad("lost across growth / copy / Compress");
+        }
+    }
+    // "marker-hunt-<M>": the table marks a removed slot by a stored hash of 0, so a live key must never hash to 0. Each shard
+    // walks M million key stems (14-24 symbols, alphanumeric or arbitrary bytes) and solves for the middle symbol, which
+    // StringUtils::Hash folds in last: if the hash of the stem with that symbol = 0 is h, the symbol
+    // that would cancel it is -h when that fits a char (the last fold is an addition in the present function; nothing relies
+    // on that - a candidate only counts after Hash() of the completed key really returns 0). Every stem therefore stands for
+    // 256 keys. A key that does hash to 0 must still be a live entry: found, counted, readable by index, and kept across
+    // growth, copy and Compress.
+    static void enumerate(pbt::Ctx &ctx, unsigned shard, unsigned nshards, const std::string &what) {
+        (void)nshards;
+        Qentem::MemoryRecord::data().enabled = false;
+        ctx.check_ledger                     = false;
+        ctx.distinct_by_construction         = true;
+        uint64_t millions = 100;
+        if (what.rfind("marker-hunt-", 0) == 0) {
+            millions = strtoull(what.c_str() + 12, nullptr, 10);
+        } else {
+            fprintf(stderr, "unknown enumeration %s\n", what.c_str());
+            exit(3);
+        }
+        static const char sym[] = "abcdefghijklmnopqrstuvwxyz0123456789";
+        const unsigned    L     = 14 + 2 * (shard % 6); // even lengths: the middle symbol is folded in exactly once, last
+        const unsigned    mid   = L / 2;                // the symbol solved for
+        const bool        alnum = ((shard / 6) % 2) == 0;
+        char              key[32];
+        // stems: a fixed pseudo-random sequence per shard (xorshift64, a pure function of the shard number - the hash mixes
+        // its inner symbols so weakly that an odometer over a few positions only reaches a narrow band of hash values)
+        uint64_t       x = 0x9E3779B97F4A7C15ULL * (uint64_t(shard) + 1);
+        const uint64_t n = millions * 1000000ULL;
+        uint64_t       zero_keys = 0, candidates = 0;
+        for (uint64_t i = 0; i < n; ++i) {
+            for (unsigned j = 0; j < L; j += 8) {
+                x ^= x << 13;
+                x ^= x >> 7;
+                x ^= x << 17;
+                uint64_t r = x;
+                for (unsigned k = j; k < j + 8 && k < L; ++k) {
+                    key[k] = alnum ? sym[(r & 255) % 36] : char(r & 255);
+                    r >>= 8;
+                }
+            }
+            key[mid]      = 0;
+            const SizeT h = StringUtils::Hash(key, SizeT(L));
+            const SizeT d = SizeT(0) - h;
+            bool        try_it = false;
+            if (d <= SizeT(127)) {
+                key[mid] = char(d);
+                try_it   = true;
+            } else if (d >= SizeT(0) - SizeT(128)) {
+                key[mid] = char(-int(SizeT(0) - d));
+                try_it   = true;
+            }
+            if (try_it) {
+                ++candidates;
+            }
+            if (try_it && StringUtils::Hash(key, SizeT(L)) == 0) {
+                ++zero_keys;
+                const std::string k(key, L);
+                try {
+                    check_marker_key(k, ctx);
+                } catch (const pbt::Failure &f) {
+                    ctx.fail_text = "marker_key=" + pbt::enc_bytes(k) + "\nvtype=0\nbytes=\n";
+                    ctx.failed    = true;
+                    ctx.fail_cls  = f.cls;
+                    ctx.fail_msg  = f.msg;
+                    ctx.write_stats();
+                    return;
+                }
+            }
+        }
+        ctx.evaluations += n;
+        ctx.labels["marker-hunt:stems-hashed(x256 keys)"] += n;
+        ctx.labels["marker-hunt:candidates-completed"] += candidates;
+        ctx.labels["marker-hunt:keys-hashing-to-marker"] += zero_keys;
+        ctx.nontrivial_counted += candidates;
+        ctx.nontrivial_total += candidates;
+    }
+    // coverage-guided mode: selector byte, then entropy
+    static bool from_fuzz(const uint8_t *d, size_t n, Case &c) {
+        static const bool pooled = (key_pool(), true); // collision sets are built before the first case
+        (void)pooled;
+        pbt::FuzzBytes f(d, n);
+        c.vtype = f.sel() & 3;
+        c.bytes = f.rest();
+        return true;
+    }
     static std::string to_text(const Case &c) {
         static const char hx[] = "0123456789abcdef";
         std::string       t;
         t.reserve(c.bytes.size() * 2 + 4096);
+        if (c.has_marker_key) {
+            return "marker_key=" + pbt::enc_bytes(c.marker_key) + "\nvtype=0\nbytes=\n";
+        }
         t += "bytes=";
         for (uint8_t x : c.bytes) {
             t.push_back(hx[x >> 4]);
@@ -1128,9 +1246,18 @@ struct H {
             c.bytes.push_back(uint8_t(strtoul(hex.substr(i, 2).c_str(), nullptr, 16)));
         }
         c.vtype = int(kv.geti("vtype", 0));
+        if (kv.has("marker_key")) {
+            c.has_marker_key = true;
+            c.marker_key     = pbt::dec_bytes(kv.get("marker_key"));
+        }
         return c;
     }
     static void run(const Case &c, pbt::Ctx &ctx) {
+        if (c.has_marker_key) {
+            ctx.nontrivial();
+            check_marker_key(c.marker_key, ctx);
+            return;
+        }
         switch (c.vtype) {
             case 0:
                 ctx.label("vtype:SizeT");
@@ -1154,7 +1281,11 @@ struct H {
 
 } // namespace
 
+#ifdef VERIF_FUZZ_GENERIC
+PBT_MAIN(H)
+#else
 int main(int argc, char **argv) {
     key_pool(); // brute-force the collision sets before the first case (and outside the allocation ledger's window)
     return pbt::run_main<H>(argc, argv);
 }
+#endif
